@@ -405,7 +405,8 @@ func (r *Router) SetUnknownCall(fn func(UnknownCallCtx) (interface{}, *Status), 
 	} else {
 		Warnf("covered %s handler", h.name)
 	}
-	r.subRouter.unknownCall = &h
+	// write through the cell shared by all sub-routers (lookups go through the root's)
+	*r.subRouter.unknownCall = h
 }
 
 // SetUnknownPush sets the default handler,
@@ -429,7 +430,7 @@ func (r *Router) SetUnknownPush(fn func(UnknownPushCtx) *Status, plugin ...Plugi
 	} else {
 		Warnf("covered %s handler", h.name)
 	}
-	r.subRouter.unknownPush = &h
+	*r.subRouter.unknownPush = h
 }
 
 func (r *SubRouter) getCall(uriPath string) (*Handler, bool) {
